@@ -22,6 +22,8 @@ def serve_mc(mode, tier, **over):
     c["Mode"] = '"%s"' % mode
     if tier == "thorough":
         c.update({"MaxL": 5, "MaxItems": 3, "MaxExtra": 4, "MaxTags": 2})
+        if mode == "big1":
+            c.update({"MaxSpecs": 1, "Mode": '"big"', "PartEstimate": 80})
         if mode == "range3":
             c.update({"MaxL": 3, "MaxSpecs": 3, "Mode": '"range"'})
         if mode == "big":
@@ -30,6 +32,8 @@ def serve_mc(mode, tier, **over):
         c["PartEstimate"] = 80
         if tier == "quick":
             c["MaxSpecs"] = 1
+    if mode == "big1":
+        c.update({"MaxSpecs": 1, "Mode": '"big"', "PartEstimate": 80})
     c.update(over)
     c.update(over)
     return ("ServeMC", c, ["HeadInv", "PollInv", "BodyInv", "PairInv", "EnvelopeInv"],
@@ -37,7 +41,7 @@ def serve_mc(mode, tier, **over):
 
 
 SERVE_WITNESS = {
-    "range3": ["W_416"],
+    "range3": ["W_416"], "big1": ["W_416"],
     "range": ["W_Multi", "W_416"], "big": ["W_416"], "cond": ["W_412", "W_304"], "ifrange": ["W_Multi"],
     "env": ["W_400", "W_412"], "body": ["W_ErrTerminal", "W_CleanMulti"],
 }
@@ -161,7 +165,9 @@ for _p in ALL_SERVE:
                               "nontrivial": (lambda prop: (lambda c: serve_nontrivial(prop, c)))(_p)}],
                  "mc": (lambda prop: (lambda tier: [(m, serve_mc(m, tier)) for m in SERVE_MC_MODES[prop]] +
                                       ([("range3", serve_mc("range3", tier))]
-                                       if tier == "thorough" and "range" in SERVE_MC_MODES[prop] and prop in ("C03", "C02") else [])))(_p),
+                                       if tier == "thorough" and "range" in SERVE_MC_MODES[prop] and prop in ("C03", "C02") else []) +
+                                      ([("big1", serve_mc("big1", tier))]
+                                       if tier == "thorough" and "big" in SERVE_MC_MODES[prop] else [])))(_p),
                  "witness": SERVE_WITNESS}
 
 
@@ -300,7 +306,9 @@ def run_check(prop, tier, seed):
             st = run_mc(prop, tier, name, spec, sd)
             ws = plan.get("witness", {}).get(name, [])
             if ws:
-                st["witnesses"] = run_witnesses(prop, name, spec, ws, sd)
+                # reachability in the small (quick) configuration implies it in the larger one
+                quick_specs = dict(plan["mc"]("quick"))
+                st["witnesses"] = run_witnesses(prop, name, quick_specs.get(name, spec), ws, sd)
             out.append(st)
             vlib.log("  exhaustive %-8s %8d distinct states, %8d generated, %5.1fs %s" %
                      (name, st["distinct"], st["generated"], st["wall_s"], st.get("witnesses", "")))
